@@ -56,4 +56,4 @@ for i in ids:
     print(i, 'OK' if r['ok'] else r, flush=True)
 sh('git checkout -q -- . && git clean -fdq', WT)
 subprocess.run(f'git -C /repo worktree remove --force {WT}', shell=True)
-json.dump(results, open('/tmp/seeded/verify_results.json', 'w'), indent=1)
+json.dump(results, open(os.path.join(src, 'verify_results.json'), 'w'), indent=1)
